@@ -2,8 +2,8 @@ package trie
 
 // C11 correspondence harness, layer 2: the real NewTrie / HasPrefix (LOUDS bitmaps, rank/select
 // caches, packed labels) against the bit-exact Lean model (driver c11drv, op `trie`).
-// White-box: the private arrays of the built trie are dumped and compared word for word
-// (long dumps as FNV-1a 64 of the same text).
+// Compared: the HasPrefix answers.  The private arrays of the built trie are dumped after ` | ` as a
+// layout DIAGNOSTIC only (long dumps as FNV-1a 64 of the same text).
 
 import (
 	"encoding/hex"
